@@ -7,7 +7,7 @@ from ..alg import Rat
 from ..cfg import guards_of, parent_map
 from ..interp import Cols, Field, Opaque, Unsupported, Vec2
 from ..model import new_interp
-from ..src import AnalysisError, loc, norm, own_nodes
+from ..src import rename_id, AnalysisError, loc, norm, own_nodes
 
 UTIL = "tdgl.finite_volume.util"
 TECH = ("value numbering of the circumcentre formula (exact identity |U-A|=|U-B|=|U-C|), of the edge-mesh geometry, and "
@@ -40,11 +40,15 @@ def check(ctx):
            message="the returned point is not equidistant from vertices A and C", consequence="same")
     # R07.2 get_edges
     fe = repo.func(UTIL, "get_edges")
-    src = [norm(n) for n in own_nodes(fe.node) if isinstance(n, (ast.Assign, ast.Return))]
-    ok = any("np.sort(edges, axis=1)" in s for s in src)
+    calls = [n for n in own_nodes(fe.node) if isinstance(n, ast.Call)]
+    src = [norm(c) for c in calls]
+
+    def kw(c, name):
+        return next((norm(k.value) for k in c.keywords if k.arg == name), None)
+    ok = any(norm(c.func).endswith("np.sort") and kw(c, "axis") == "1" for c in calls)
     ctx.ob("R07.2", "edges are sorted within each pair (np.sort(axis=1))", ok, detail=src, where=fe.fq, construct="edge sort",
            message="edges are not sorted per pair", consequence="(i,j) and (j,i) count as different edges: no boundary is detected")
-    ok = any("np.unique(edges, return_counts=True, axis=0)" in s for s in src)
+    ok = any(norm(c.func).endswith("np.unique") and kw(c, "return_counts") == "True" and kw(c, "axis") == "0" for c in calls)
     ctx.ob("R07.2", "edges are unique rows with incidence counts", ok, detail=src, where=fe.fq, construct="edge unique",
            message="edges are not deduplicated with counts", consequence="interior edges appear twice")
     rets = [n for n in own_nodes(fe.node) if isinstance(n, ast.Return)]
@@ -80,20 +84,30 @@ def check(ctx):
     # R07.3
     fd = repo.func(UTIL, "get_dual_edge_lengths")
     pm = parent_map(fd.node)
+    # the result array: the name returned by the function
+    rets = [n.value for n in own_nodes(fd.node) if isinstance(n, ast.Return)]
+    res = norm(rets[0]) if len(rets) == 1 else "?"
     stores = [n for n in own_nodes(fd.node) if isinstance(n, ast.Assign) and isinstance(n.targets[0], ast.Subscript)
-              and norm(n.targets[0].value) == "dual_lengths"]
+              and norm(n.targets[0].value) == res]
     by = {}
     for s in stores:
-        g = [("" if br == "true" else "not ") + norm(x.test) for x, br in guards_of(fd.node, s, pm) if isinstance(x, ast.If)]
-        by[tuple(g)] = norm(s.value).replace(" ", "")
-    ok = by.get(("len(indices) == 1",)) == "np.linalg.norm(dual_sites[indices[0]]-edge_centers[i])" and \
-        by.get(("not len(indices) == 1",)) == "np.linalg.norm(dual_sites[indices[0]]-dual_sites[indices[1]])"
+        gs = [(x, br) for x, br in guards_of(fd.node, s, pm) if isinstance(x, ast.If)]
+        if len(gs) != 1 or not isinstance(gs[0][0].test, ast.Compare) or not isinstance(gs[0][0].test.left, ast.Call):
+            continue
+        test = gs[0][0].test
+        lst = norm(test.left.args[0]) if test.left.args else "?"
+        idx = norm(s.targets[0].slice)
+        key = ("one" if (gs[0][1] == "true") == (rename_id(norm(test), lst, "L") == "len(L) == 1") else "two")
+        by[key] = rename_id(norm(s.value), lst, "L").replace(f"[{idx}]", "[i]").replace(" ", "")
+    ok = by.get("one") == "np.linalg.norm(dual_sites[L[0]]-edge_centers[i])" and \
+        by.get("two") == "np.linalg.norm(dual_sites[L[0]]-dual_sites[L[1]])"
     ctx.ob("R07.3", "one incident triangle: |circumcentre - edge midpoint|; two: |circumcentre_0 - circumcentre_1|", ok, detail={str(k): v for k, v in by.items()},
            where=fd.fq, construct="dual length branches", loc=loc(fd, fd.node), message=f"dual length branches: {by}",
            consequence="dual edge lengths are not the Voronoi face lengths: the Laplacian weights are wrong")
     fa = repo.func(UTIL, "make_adj_directed_tri_indices")
     plus1 = any(norm(n.value).replace(" ", "") == "np.repeat(np.arange(1,elements.shape[0]+1),3)" for n in own_nodes(fa.node) if isinstance(n, ast.Assign))
-    minus1 = any(isinstance(n, ast.Call) and norm(n.func).endswith(".append") and norm(n.args[0]).replace(" ", "") == "v-1" for n in ast.walk(fd.node))
+    minus1 = any(isinstance(n, ast.Call) and norm(n.func).endswith(".append") and n.args and isinstance(n.args[0], ast.BinOp)
+                 and isinstance(n.args[0].op, ast.Sub) and norm(n.args[0].right) == "1" for n in ast.walk(fd.node))
     ctx.ob("R07.3", "adjacency stores triangle index + 1; the reader subtracts 1", plus1 and minus1, detail={"writer+1": plus1, "reader-1": minus1},
            where=fd.fq, construct="adjacency offset", message="the +1/-1 offset of the triangle adjacency is inconsistent",
            consequence="dual lengths are computed from the wrong triangles (off by one)")
